@@ -191,6 +191,7 @@ var specC19 = vstat.Spec[c19Case]{
 	Gen:         genC19,
 	Check:       checkC19,
 	Inflight:    true,
+	Confirm:     true,
 }
 
 func TestC19(t *testing.T)       { vstat.Check(t, specC19) }
